@@ -102,7 +102,7 @@ def build(unit):
             try:
                 src, masked = load(d["file"])
                 if is_slice:
-                    s, e = extract.extract_slice(src, masked, d["fn"], d["start"], d["end"])
+                    s, e = extract.extract_slice(src, masked, d["fn"], d["start"], d["end"], exact=d.get("exact") == "1")
                     body = src[s:e]
                     where = f"{d['file']}:{extract.line_of(src, s)}-{extract.line_of(src, e)} slice of {d['fn']}"
                     body = extract.transform(body, exlog["rules_applied"], where)
@@ -166,7 +166,14 @@ def make_canaries(text):
             elif ch in ")]":
                 pd -= 1
             elif pd == 0 and ch == "{":
-                break
+                # the body brace is the first non-blank character of its line (contract clauses such as
+                # `match x {` or `if c {` keep their brace on the same line); a signature without
+                # clauses may also keep the body brace on the signature line
+                ls = m.rfind("\n", 0, j) + 1
+                header_so_far = m[fm.start():j]
+                if m[ls:j].strip() == "" or not re.search(r"\b(requires|ensures|decreases|recommends)\b", header_so_far):
+                    break
+                j = extract.match_brace(m, j)
             elif pd == 0 and ch == ";":
                 j = -1
                 break
@@ -174,6 +181,8 @@ def make_canaries(text):
         if j < 0 or j >= len(m):
             continue
         header = m[fm.start():j]
+        if re.search(r"\bfn\b", m[fm.end():j]):
+            continue  # ran into the next function: this one has a single-line body (external stub)
         if not re.search(r"\brequires\b", header):
             continue
         tag = fm.group(2)
